@@ -500,6 +500,7 @@ func init() {
 		Stub:        []string{"net.Listener (SimListener with scripted Accept errors)", "net.Conn (SimConn)", "Backend (SimBackend; sync-silent after a park so that it adds no happens-before edge)", "clock (synctest)", "SMTP clients (raw drivers)", "VerifYield hook (build tag verif) between the test and the closing of Server.done"},
 		Assumptions: []string{"the simulation cannot block a goroutine that holds a mutex (the fake clock would stop): a write without a deadline issued while Conn.locker is held is reported as the deadlock it is for a peer that does not read; the mutex is probed through a guarded hook, never in the race-detector build", "interleavings are controlled at blocking points and at the two yield hooks only; the race detector covers memory-level races inside straight-line stretches", "a porcupine timeout is inconclusive and never reported"},
 		Required:    []string{"callback_overlaps_running_delivery", "close_shutdown_overlap_via_yield_hook", "command_loop_parks_at_yield_points", "connection_closed_by_Server.Close", "second_close_or_shutdown", "serve_started_after_close", "shutdown_context_expired", "accept_permanent", "accept_temporary", "reply_write_failed", "silent_peer", "silent_peer_stalls_the_implicit_TLS_handshake", "reply_write_blocked_peer_not_reading", "starttls_upgrade_completed", "connection_goroutine_parked_before_registering", "backend_panics_in_Reset_under_the_connection_mutex"},
+		Instr:       true,
 		QuickRuns:   10000, ThoroughRuns: 800000,
 	})
 }
